@@ -83,7 +83,7 @@ func c04Units(t core.Tier) []c04Unit {
 			us = append(us, c04Unit{"chain4", i})
 		}
 	}
-	us = append(us, c04Unit{"text", 0}, c04Unit{"calls", 0}, c04Unit{"chain4q", 0})
+	us = append(us, c04Unit{"text", 0}, c04Unit{"calls", 0}, c04Unit{"chain4q", 0}, c04Unit{"lists", 0})
 	for i := 0; i < 21; i++ { // one unit per Boolean leaf (the first operand)
 		us = append(us, c04Unit{"bool", i})
 	}
@@ -148,6 +148,36 @@ func (c04) RunUnit(t core.Tier, u int, r *core.Reporter) {
 				}
 				run(ref.Btw(e1.Clone(), ref.Bin("-", ref.N(1), ref.N(1)), ref.Bin("+", ref.N(2), ref.Fl(1.5))), true)
 				run(ref.In(e1.Clone(), ref.N(2), ref.Bin("+", ref.N(1), ref.N(2)), ref.Fl(1.5)), true)
+			}
+		}
+	case "lists":
+		// IN lists and BETWEEN bounds with a constant, a folding constant or a
+		// row-dependent expression at every position, under a left operand of each
+		// of the three sorts (a list is constant only if every item is)
+		tx := []*ref.Expr{ref.S("b"), ref.Call("lower", ref.S("B")), ref.Bin("+", ref.S("a"), ref.S("b")), ref.Key(), ref.Value(), ref.S("2")}
+		for _, l := range tx {
+			for _, a := range tx {
+				for _, b := range tx {
+					run(ref.In(l.Clone(), a.Clone(), b.Clone()), true)
+					run(ref.Not(ref.In(l.Clone(), a.Clone(), b.Clone())), true)
+					run(ref.Btw(l.Clone(), a.Clone(), b.Clone()), true)
+					for _, c := range tx[:4] {
+						run(ref.In(l.Clone(), a.Clone(), b.Clone(), c.Clone()), true)
+					}
+				}
+			}
+		}
+		nx := []*ref.Expr{ref.N(2), ref.Bin("+", ref.N(1), ref.N(1)), ref.Bin("*", ref.N(5), ref.N(2)), ref.Call("int", ref.Value()), ref.Bin("+", ref.Call("int", ref.Value()), ref.N(1)), ref.N(0)}
+		for _, l := range nx {
+			for _, a := range nx {
+				for _, b := range nx {
+					run(ref.In(l.Clone(), a.Clone(), b.Clone()), true)
+					run(ref.Btw(l.Clone(), a.Clone(), b.Clone()), true)
+					run(ref.Bin("&", ref.Btw(l.Clone(), a.Clone(), b.Clone()), ref.Bin("!=", ref.Key(), ref.S("zz"))), true)
+					for _, c := range nx[:4] {
+						run(ref.In(l.Clone(), a.Clone(), b.Clone(), c.Clone()), true)
+					}
+				}
 			}
 		}
 	case "chain4q":
